@@ -46,8 +46,8 @@ func init() {
 	mutant(&Mutant{Name: "c10-padding-box-position-stale", Property: "C10", File: "css/css.go",
 		Old: "\t\t\t\t\t\t\tiPaddingBox = -1 // both are removed, the position no longer refers to padding-box\n", New: "",
 		Rule: "R10.5", Construct: "iPaddingBox after the deletion"})
-	mutant(&Mutant{Name: "c10-mediatype-lowercase-uncapped", Property: "C10", File: "common.go",
-		Old: "\t\t\t\tif i-lastString < 1024 { // ToLower may otherwise slow down minification greatly\n\t\t\t\t\tparse.ToLower(b[lastString:i])\n\t\t\t\t}\n", New: "\t\t\t\tparse.ToLower(b[lastString:i])\n",
+	mutant(&Mutant{Name: "c10-mediatype-lowercase-span-not-consumed", Property: "C10", File: "common.go",
+		Old: "\t\t\t} else {\n\t\t\t\tlower = i + 1\n\t\t\t}\n", New: "\t\t\t}\n",
 		Rule: "R10.6", Construct: "Mediatype"})
 	mutant(&Mutant{Name: "c10-padding-box-position-kept-across-layers", Property: "C10", File: "css/css.go",
 		Old: "\t\t\tiPaddingBox := -1 // position of background-origin that is padding-box\n", New: "",
